@@ -27,7 +27,12 @@ from ..traces import validate
 
 MIME_ONLY = ["xml", "py", "jpeg", "png", "css", "js", "svg", "wav"]
 UNKNOWN = ["xyz", "bak", "tmp", "docxx", "doc_"]
-CFGS = ["default", "empty", "hostile"]
+# suffixes the host's mimetypes database treats as a content-encoding over the inner type ("index.html.br") or as
+# shorthand for a compound suffix ("x.taz" = "x.tar.gz"): guess_type() then returns (type, encoding)
+MIME_ENC = ["br", "taz", "tz"]
+# "switch": one process whose mimetypes database changes between queries of the same paths (hostile -> empty ->
+# default): an answer must depend on the path, the tables and the database as it is NOW, not on earlier calls
+CFGS = ["default", "empty", "hostile", "switch"]
 
 
 def _export_tables():
@@ -73,7 +78,7 @@ def run(ctx):
     # ---- 2. enumerate abstract paths over the running code's tokens
     tables = _export_tables()
     toks = sorted({k for k, _ in tables["reg"]} | {k for k, _ in tables["alias"]} | {"tar"}
-                  | set(MIME_ONLY) | set(UNKNOWN) | {c[0] for c in tables["comp"]} | {c[1] for c in tables["comp"]})
+                  | set(MIME_ONLY) | set(UNKNOWN) | set(MIME_ENC) | {c[0] for c in tables["comp"]} | {c[1] for c in tables["comp"]})
     max_exts = 2          # (3 was tried for thorough: 45 min and > 9 GB; the compound logic only looks at the last two tokens)
     gen_cfg = f"SPECIFICATION Spec\nCONSTANTS Tok = {to_tla(set(toks))}\n MaxExts = {max_exts}\n"
     dump = ctx.scratch / "router.dump"
@@ -187,7 +192,8 @@ def _worker(cfg, inp, out, wd):
     import importlib
     job = json.loads(Path(inp).read_text())
     rng = random.Random(job["seed"] * 1000003 + CFGS.index(cfg))
-    _setup_mimetypes(cfg, job["toks"])
+    phases = ["hostile", "empty", "default", "hostile"] if cfg == "switch" else [cfg]
+    _setup_mimetypes(phases[0], job["toks"])
     reg = router._EXTRACTOR_REGISTRY
     real = {}
     for ft, (mod, fn) in reg.items():
@@ -206,6 +212,32 @@ def _worker(cfg, inp, out, wd):
         return name
 
     events = []
+    if cfg == "switch":
+        # the same concrete paths are asked again after every change of the database (routes decided by MIME only are
+        # the interesting ones: single-token paths and every path whose last token is in no extension table)
+        sample = [ap for ap in job["paths"] if len(ap["exts"]) <= 1 or ap["exts"][-1] in set(MIME_ONLY) | set(UNKNOWN) | set(MIME_ENC)]
+        concrete = []
+        for ap in sample:
+            stem = "" if ap["hidden"] else rng.choice(STEMS)
+            conc_tail = {"": "", ".": ".", " ": " ", "?q": "?x=1", "/b": "/b"}[ap["tail"]]
+            d = rng.choice(["", "dir/", "/abs/path/"])
+            concrete.append((ap, _case(d + stem + "".join("." + t for t in ap["exts"]), rng.choice((0, 1)), rng) + conc_tail))
+        # small blocks (single paths first, then 40 at a time): a memo of any size sees the same path again soon
+        rng.shuffle(concrete)
+        blocks = [concrete[k:k + 1] for k in range(0, min(120, len(concrete)))]
+        blocks += [concrete[k:k + 40] for k in range(120, len(concrete), 40)]
+        for ph_no, ph, block in [(n, ph, bl) for bl in blocks for n, ph in enumerate(phases)]:
+            _setup_mimetypes(ph, job["toks"])
+            for ap, path in block:
+                guess = mimetypes.guess_type(path.lower())[0] or ""
+                try:
+                    sup = bool(router.is_supported_file(path))
+                except Exception as e:
+                    sup = "Other:" + type(e).__name__
+                events.append({"a": "Query", "path": path, "exts": ap["exts"], "hidden": ap["hidden"], "tail": ap["tail"],
+                               "case": ph_no, "guess": guess, "sup": sup, "route": route_of(path), "rf": "n/a"})
+        Path(out).write_text(json.dumps(events))
+        return
     for ap in job["paths"]:
         for _ in range(job["nvar"]):
             for mode in (0, 1, 2):
